@@ -78,7 +78,8 @@ def audit_function(fn):
             nret += 1
             if i != len(fdef.body) - 1:
                 raise TranslationError(f"{fn.__qualname__}: return is not the last statement")
-        elif not isinstance(st, ast.Assign):
+        elif not isinstance(st, (ast.Assign, ast.AugAssign)):
+            # (an augmented assignment traces fine — Sym has no in-place operators — and is reported by purity_of, see C16)
             raise TranslationError(f"{fn.__qualname__}: statement {type(st).__name__} not allowed")
     if nret != 1:
         raise TranslationError(f"{fn.__qualname__}: {nret} return statements")
@@ -86,11 +87,36 @@ def audit_function(fn):
         if isinstance(node, (ast.If, ast.For, ast.While, ast.Try, ast.With, ast.Lambda, ast.IfExp, ast.ListComp,
                              ast.DictComp, ast.SetComp, ast.GeneratorExp, ast.BoolOp, ast.Yield, ast.Await,
                              ast.Global, ast.Nonlocal, ast.Raise, ast.Assert, ast.Delete, ast.Import,
-                             ast.ImportFrom, ast.NamedExpr, ast.AugAssign)) and node is not fdef:
+                             ast.ImportFrom, ast.NamedExpr)) and node is not fdef:
             raise TranslationError(f"{fn.__qualname__}: construct {type(node).__name__} not allowed")
         if isinstance(node, ast.FunctionDef) and node is not fdef:
             raise TranslationError(f"{fn.__qualname__}: nested def")
     return True
+
+
+def purity_of(fn):
+    """statement kinds of one compute function, for the purity table of C16: 'assign' (plain names / tuples of names bound to a new
+    value), 'return', or what could write through an operand: 'augassign' (x op= ...), 'store' (assignment to a subscript or an
+    attribute), 'out_kw' (a call with out=...)"""
+    tree = ast.parse(textwrap.dedent(inspect.getsource(fn)))
+    kinds = []
+    for st in tree.body[0].body:
+        if isinstance(st, ast.Expr) and isinstance(st.value, ast.Constant) and isinstance(st.value.value, str):
+            continue
+        if isinstance(st, ast.Return):
+            k = "return"
+        elif isinstance(st, ast.AugAssign):
+            k = "augassign"
+        elif isinstance(st, ast.Assign):
+            def plain(t):
+                return isinstance(t, ast.Name) or (isinstance(t, (ast.Tuple, ast.List)) and all(plain(e) for e in t.elts))
+            k = "assign" if all(plain(t) for t in st.targets) else "store"
+        else:
+            k = "other"
+        if any(isinstance(n, ast.Call) and any(kw.arg == "out" for kw in n.keywords) for n in ast.walk(st)):
+            k = "out_kw"
+        kinds.append(k)
+    return kinds
 
 
 # ---------------------------------------------------------------- tracing
@@ -298,8 +324,10 @@ def _infer_types(ir):
 def build_ir():
     tr = Tracer()
     audited = 0
+    purity = {}
     for f, n in tr.funcs.values():
         audit_function(f)
+        purity[n] = purity_of(f)
         audited += 1
     fns = {}
     for f, n in tr.funcs.values():
@@ -342,7 +370,7 @@ def build_ir():
             ents.append({"sig": [getattr(s, "__name__", s) for s in sig], "fn": name, "returns": rets})
         tables[short(m)] = {"module": m.__name__, "entries": ents,
                             "dispatch_params": list(inspect.signature(m.dispatch).parameters)}
-    ir = {"functions": fns, "order": order, "tables": tables, "audited": audited}
+    ir = {"functions": fns, "order": order, "tables": tables, "audited": audited, "purity": purity}
     _infer_types(ir)
     return ir, tr
 
